@@ -1,4 +1,4 @@
-SPECIFICATION FairSpec
+SPECIFICATION Spec
 CONSTANTS
   NChunks = 2
   QCap = 1
@@ -7,8 +7,7 @@ CONSTANTS
   MaxT = 1
   MaxEvents = 1
   MaxPerTick = 1
-  DrainAfterQuit = FALSE
+  DrainAfterQuit = TRUE
   ShowBeforeStop = TRUE
-INVARIANTS DisplayedIsPartOfSent NoticesAlwaysDisplayed
-PROPERTIES EndsAfterQuit
+INVARIANTS NoticeShownAtCompletion DisplayedIsPartOfSent
 CHECK_DEADLOCK FALSE
